@@ -193,13 +193,17 @@ func (c *Chain) buildMsg(m MsgSpec) (sdk.Msg, error) {
 		return msg, nil
 	case "params":
 		p := m.Params
+		denom := p.Denom
+		if denom == "stake" {
+			denom = c.G.denom() // "stake" in a parameter tuple stands for the chain's bond denom
+		}
 		return &poa.MsgUpdateStakingParams{Sender: sender, Params: poa.StakingParams{
 			UnbondingTime: time.Duration(p.Unbonding), MaxValidators: p.MaxVals, MaxEntries: p.MaxEntries,
-			HistoricalEntries: p.Hist, BondDenom: p.Denom, MinCommissionRate: optDec(p.MinComm)}}, nil
+			HistoricalEntries: p.Hist, BondDenom: denom, MinCommissionRate: optDec(p.MinComm)}}, nil
 	case "unjail":
 		return &slashingtypes.MsgUnjail{ValidatorAddr: k.valAddrStr(m.Val)}, nil
 	case "send":
-		return &banktypes.MsgSend{FromAddress: sender, ToAddress: k.accAddr(user2ID).String(), Amount: sdk.NewCoins(sdk.NewInt64Coin("stake", 1))}, nil
+		return &banktypes.MsgSend{FromAddress: sender, ToAddress: k.accAddr(user2ID).String(), Amount: sdk.NewCoins(sdk.NewInt64Coin(c.G.denom(), 1))}, nil
 	case "tree":
 		return m.Tree.MsgSigned(sender, k), nil
 	}
